@@ -113,6 +113,36 @@ def simpleJ (j : Jordan) : Bool :=
       (if k = i + 1 then !(e.onEdge f.q) && !(f.onEdge e.p) else !(e.onEdge f.p) && !(f.onEdge e.q))
     else !(edgesMeet e f))
 
+/-- two edges overlap along a piece of positive length (collinear, and the open interiors of their common line interval meet) -/
+def edgesOverlap (e f : Edge) : Bool :=
+  let d := e.q - e.p
+  decide (Pt.cross d (f.q - f.p) = 0) && decide (Pt.cross d (f.p - e.p) = 0) && decide (e.p ≠ e.q) && decide (f.p ≠ f.q) &&
+    (let n2 := Pt.norm2 d
+     let a := Pt.inner (f.p - e.p) d / n2
+     let b := Pt.inner (f.q - e.p) d / n2
+     let lo := if a ≤ b then a else b
+     let hi := if a ≤ b then b else a
+     decide ((if lo < 0 then 0 else lo) < (if 1 < hi then 1 else hi)))
+
+/-- the crossing number of the closed polygon takes only the two values of a simple closed curve (0 and the orientation sign) at every
+sample point of its own arrangement — by `slabCheck_sound` this holds at EVERY generic point (Props/C06) -/
+def windRangeOK (j : Jordan) : Bool :=
+  let s : Int := if j.ccw then 1 else -1
+  slabCheck j.edges fun p => decide (wind j.edges p = 0) || decide (wind j.edges p = s)
+
+/-- closed polygon that may TOUCH itself at isolated points but does not cross itself and does not retrace a piece: closed chain of ≥ 3
+non-degenerate edges, no two distinct edges overlap along a piece, and the winding range of a simple closed curve.  (`A ^ B` of two crossing
+shapes, and results computed from it, legitimately have such boundaries: the two lobes meet at the crossing points.) -/
+def weaklySimpleJ (j : Jordan) : Bool :=
+  let es := j.edges
+  j.isPolygon && decide (3 ≤ es.length) &&
+  ((es.zip (es.tail ++ es.take 1)).all fun (e, f) => decide (e.q = f.p) && decide (e.p ≠ e.q)) &&
+  (es.zipIdx.all fun (e, i) => es.zipIdx.all fun (f, k) => if k ≤ i then true else !(edgesOverlap e f)) &&
+  windRangeOK j
+
+/-- what the well-formedness check accepts as a boundary curve -/
+def curveOK (j : Jordan) : Bool := simpleJ j || weaklySimpleJ j
+
 def noCollinearTriple (j : Jordan) : Bool :=
   let vs := j.cycle
   let n := vs.length
@@ -150,7 +180,7 @@ def wfConnected (js : List Jordan) : List String :=
   let ccws := js.filter Jordan.ccw
   let cws := js.filter fun j => !j.ccw
   (if js.length < 2 then ["connected-needs-2-curves"] else []) ++
-  (if js.all simpleJ then [] else ["curve-not-simple"]) ++
+  (if js.all curveOK then [] else ["curve-not-simple"]) ++
   (if ccws.length ≤ 1 then [] else ["several-outer-boundaries"]) ++
   (ccws.flatMap fun o => cws.flatMap fun h =>
     let (_, out, on) := curveRel h o
@@ -163,13 +193,13 @@ def wfConnected (js : List Jordan) : List String :=
 def wfProblems : Shape → List String
   | .empty => []
   | .whole => []
-  | .simple j => if simpleJ j then [] else ["curve-not-simple"]
+  | .simple j => if curveOK j then [] else ["curve-not-simple"]
   | .connected js => wfConnected js
   | .disjoint cs =>
     (if cs.length < 2 then ["disjoint-needs-2-components"] else []) ++
     (cs.flatMap fun c => match c with
       | [] => ["empty-component"]
-      | [j] => if simpleJ j then [] else ["curve-not-simple"]
+      | [j] => if curveOK j then [] else ["curve-not-simple"]
       | js => wfConnected js) ++
     (if componentsDisjoint cs then [] else ["components-overlap"])
 
